@@ -380,7 +380,10 @@ type minInst struct {
 	writerFail int
 	isolated   int // 0 no; 1 FuncEvaluations only; 2 MajorIterations only; 3 Runtime only
 	costly     bool
-	knob       int  // method tuning knob variant (0 = defaults)
+	fcAbs      float64 // FunctionConverge parameters (convKind 2)
+	fcRel      float64
+	fcIter     int
+	knob       int // method tuning knob variant (0 = defaults)
 	nilMethod  bool // pass method == nil: Minimize picks LBFGS (with Grad) or NelderMead
 	prime      int // the method value is reused: a first Minimize call, stopped by 1 func / 2 grad / 3 hess limit or 4 Problem.Status, precedes the run under test
 	primeN     int
@@ -484,11 +487,14 @@ func drawMinimize(t *simrt.Tape) *minInst {
 		in.obj.bad = 0
 		in.costly = true
 	}
+	in.fcAbs = []float64{1e-2, 1e-3, 0.5, 0}[t.Choose(simrt.KWorkload, 4)]
+	in.fcRel = []float64{0, 1e-3, 0.05}[t.Choose(simrt.KWorkload, 3)]
+	in.fcIter = []int{2, 1, 3, 5}[t.Choose(simrt.KWorkload, 4)]
 	switch in.convKind {
 	case 1:
 		s.Converger = optimize.NeverTerminate{}
 	case 2:
-		s.Converger = &optimize.FunctionConverge{Absolute: 1e-2, Iterations: 2}
+		s.Converger = &optimize.FunctionConverge{Absolute: in.fcAbs, Relative: in.fcRel, Iterations: in.fcIter}
 	}
 	if in.method == mCmaEs {
 		in.pop = t.Choose(simrt.KWorkload, 7) // 0 = default
@@ -530,7 +536,7 @@ func (in *minInst) describe(m map[string]interface{}) {
 	m["concurrent"] = in.conc
 	m["limits"] = fmt.Sprintf("func=%d major=%d grad=%d hess=%d runtime=%v", in.set.FuncEvaluations, in.set.MajorIterations, in.set.GradEvaluations, in.set.HessEvaluations, in.set.Runtime)
 	m["gradient_threshold"] = fmt.Sprint(in.set.GradientThreshold)
-	m["converger"] = []string{"default", "NeverTerminate", "FunctionConverge(1e-2,2)"}[in.convKind]
+	m["converger"] = []string{"default", "NeverTerminate", fmt.Sprintf("FunctionConverge{Absolute:%v Relative:%v Iterations:%d}", in.fcAbs, in.fcRel, in.fcIter)}[in.convKind]
 	m["init_values"] = []string{"none", "F", "F+Grad", "F+Grad+Hess"}[in.initVals]
 	m["recorder"] = []string{"none", "harness", "Printer"}[in.useRec]
 	if in.recInitErr {
@@ -695,7 +701,7 @@ func (in *minInst) build() *minRun {
 	r.set = in.set
 	switch in.convKind {
 	case 2:
-		r.set.Converger = &optimize.FunctionConverge{Absolute: 1e-2, Iterations: 2}
+		r.set.Converger = &optimize.FunctionConverge{Absolute: in.fcAbs, Relative: in.fcRel, Iterations: in.fcIter}
 	}
 	if in.initVals > 0 {
 		iv := &optimize.Location{F: o.F(in.initX)}
@@ -1020,6 +1026,13 @@ func checkSerialAnswer(rc *RunCtx, in *minInst, r *minRun) *Violation {
 	return nil
 }
 
+func tailF(fs []float64) []float64 {
+	if len(fs) > 12 {
+		return fs[len(fs)-12:]
+	}
+	return fs
+}
+
 func allZero(x []float64) bool {
 	for _, v := range x {
 		if v != 0 {
@@ -1219,6 +1232,50 @@ func checkC19(rc *RunCtx, in *minInst, r *minRun, nTasks int) *Violation {
 	rc.oracle("runtime-exact")
 	if st.Runtime != time.Duration(r.t1-r.t0) {
 		return &Violation{prop, "minimize/runtime-stat", fmt.Sprintf("%s: Stats.Runtime=%v but the call took %v of simulated time", name, st.Runtime, time.Duration(r.t1-r.t0))}
+	}
+
+	// FunctionConvergence against the documented criterion (single-task runs
+	// with the harness recorder: the recorder sees every MajorIteration that
+	// did not stop the run, in order)
+	if nTasks == 1 && r.rec != nil && r.rec.failed == 0 && !r.rec.initErr && in.convKind != 1 && in.prime == 0 {
+		abs, rel, iters := 1e-10, 0.0, 100
+		if in.convKind == 2 {
+			abs, rel, iters = in.fcAbs, in.fcRel, in.fcIter
+		}
+		var fs []float64
+		for _, e := range r.rec.entries {
+			if e.op == optimize.MajorIteration {
+				fs = append(fs, e.f)
+			}
+		}
+		recorded := len(fs)
+		if res.Status == optimize.FunctionConvergence {
+			fs = append(fs, res.F)
+		}
+		// the documented rule: f_best changes only on a significant decrease
+		best, count, at := 0.0, 0, -1
+		for i, f := range fs {
+			if i == 0 {
+				best = f
+				continue
+			}
+			if f < best && best-f > rel*math.Max(math.Abs(f), math.Abs(best))+abs {
+				best, count = f, 0
+				continue
+			}
+			count++
+			if count >= iters {
+				at = i
+				break
+			}
+		}
+		rc.oracle("function-convergence-criterion")
+		if res.Status == optimize.FunctionConvergence && at != len(fs)-1 {
+			return &Violation{prop, "minimize/status/FunctionConvergence/criterion", fmt.Sprintf("%s: stopped with FunctionConvergence at major iteration %d, but by the documented criterion (Absolute=%v Relative=%v Iterations=%d) the F history %v converges at index %d (-1 = never)", name, len(fs)-1, abs, rel, iters, tailF(fs), at)}
+		}
+		if res.Status != optimize.FunctionConvergence && at >= 0 && at < recorded {
+			return &Violation{prop, "minimize/status/FunctionConvergence/missed", fmt.Sprintf("%s: by the documented criterion (Absolute=%v Relative=%v Iterations=%d) the F history %v converges at major iteration %d, yet the run went on and ended with %v", name, abs, rel, iters, tailF(fs), at, res.Status)}
+		}
 	}
 
 	// Completeness in isolated-cause runs
